@@ -22,7 +22,7 @@ import (
 
 type NetOp struct {
 	Node    string `json:"node"` // L | L2 | R
-	Op      string `json:"op"`   // commit | fetch | push | pull | merge | rtag
+	Op      string `json:"op"`   // commit | fetch | push | pull | merge | rtag | leftover | pullall (pull --all) | pushall (push --all)
 	Branch  string `json:"branch,omitempty"`
 	Variant int    `json:"variant,omitempty"`
 	Force   bool   `json:"force,omitempty"`
@@ -35,6 +35,8 @@ type NetOp struct {
 	Mirror  bool      `json:"mirror,omitempty"` // push --mirror
 	Form    string    `json:"form,omitempty"`   // merge: how BRANCH is spelled: "", heads, refs, short (last path segment), peel (B^), tilde0 (B~0)
 	SQLFail int       `json:"sql_fail,omitempty"` // the n-th SQL statement issued during the operation (any node's ref store) fails
+	Upstream   bool   `json:"upstream,omitempty"`    // push / pull: --set-upstream (makes the branch eligible for pullall / pushall)
+	ReqFault   *NetFault `json:"req_fault,omitempty"` // a network fault addressed relative to this operation: its At-th request
 	StoreFault *Fault `json:"store_fault,omitempty"` // an object-store operation fails during the operation ...
 	FaultOn    string `json:"fault_on,omitempty"`    // ... on the node running it ("", "self") or on the remote ("R")
 }
@@ -177,7 +179,7 @@ func genNetPlan(r *Rand, tier string, focus string, faults bool) NetPlan {
 				p.Ops = append(p.Ops, NetOp{Node: node, Op: "leftover", Variant: r.Range(1, 7)})
 			}
 		case x < 80:
-			op = NetOp{Node: node, Op: "push", Branch: b, Force: r.Chance(0.15), Plus: r.Chance(0.1)}
+			op = NetOp{Node: node, Op: "push", Branch: b, Force: r.Chance(0.15), Plus: r.Chance(0.1), Upstream: r.Chance(0.3)}
 			switch r.Intn(6) {
 			case 0:
 				op.Mirror = true
@@ -192,12 +194,18 @@ func genNetPlan(r *Rand, tier string, focus string, faults bool) NetPlan {
 				}
 			}
 		case x < 92:
-			op = NetOp{Node: node, Op: "pull", Branch: b, FF: Pick(r, []string{"", "ff", "no-ff", "ff-only"}), Depth: Pick(r, []int{0, 0, 1})}
+			op = NetOp{Node: node, Op: "pull", Branch: b, FF: Pick(r, []string{"", "ff", "no-ff", "ff-only"}), Depth: Pick(r, []int{0, 0, 1}), Upstream: r.Chance(0.4)}
+			if r.Chance(0.15) {
+				op = NetOp{Node: node, Op: Pick(r, []string{"pullall", "pushall"})}
+			}
 		default:
 			op = NetOp{Node: node, Op: "merge", Branch: b, Other: "origin/" + Pick(r, netBranches), FF: Pick(r, []string{"", "no-ff", "ff-only"}), Form: Pick(r, netForms)}
 		}
 		op.Skew = skew
 		p.Ops = append(p.Ops, op)
+	}
+	if faults {
+		appendAllBlock(r, &p, []string{"404", "404", "500", "503", "lose-response", "stream-error"})
 	}
 	if focus == "C10" || faults {
 		for i := range p.Ops {
@@ -217,10 +225,20 @@ func genNetPlan(r *Rand, tier string, focus string, faults bool) NetPlan {
 		}
 		nf := r.Range(1, 4)
 		for i := 0; i < nf; i++ {
-			p.Faults = append(p.Faults, NetFault{At: r.Range(2, 40), Kind: Pick(r, []string{"lose-request", "lose-response", "500", "503", "stream-error", "restart", "delay"}), Arg: r.Range(1, 900)})
+			p.Faults = append(p.Faults, NetFault{At: r.Range(2, 40), Kind: Pick(r, []string{"lose-request", "lose-response", "500", "503", "404", "stream-error", "restart", "delay"}), Arg: r.Range(1, 900)})
 		}
 	}
 	return p
+}
+
+// appendAllBlock: a branch with an upstream, then `pull --all` / `push --all` whose k-th request is answered badly.
+func appendAllBlock(r *Rand, p *NetPlan, kinds []string) {
+	b := Pick(r, netBranches)
+	cl := Pick(r, []string{"L", "L2"})
+	p.Ops = append(p.Ops, NetOp{Node: "R", Op: "commit", Branch: b, Variant: r.Intn(6)},
+		NetOp{Node: cl, Op: "pull", Branch: b, Upstream: true},
+		NetOp{Node: "R", Op: "commit", Branch: b, Variant: r.Intn(6)},
+		NetOp{Node: cl, Op: Pick(r, []string{"pullall", "pullall", "pushall"}), ReqFault: &NetFault{At: r.Range(1, 4), Kind: Pick(r, kinds), Arg: r.Range(0, 3000)}})
 }
 
 func genSpecs(r *Rand) []NetSpec {
@@ -271,7 +289,16 @@ func init() {
 			p := genNetPlan(r, tier, "C09", false)
 			nf := r.Range(1, 4)
 			for i := 0; i < nf; i++ {
-				p.Faults = append(p.Faults, NetFault{At: r.Range(1, 40), Kind: Pick(r, []string{"truncate", "flip", "flip"}), Arg: r.Range(0, 5000)})
+				p.Faults = append(p.Faults, NetFault{At: r.Range(1, 40), Kind: Pick(r, []string{"truncate", "flip", "flip", "404"}), Arg: r.Range(0, 5000)})
+			}
+			if r.Chance(0.5) {
+				appendAllBlock(r, &p, []string{"404", "404", "truncate", "flip"})
+			}
+			if r.Chance(0.15) {
+				// a remote that answers a fetch with well-formed but empty packfiles, for ever
+				b := Pick(r, netBranches)
+				p.Ops = append(p.Ops, NetOp{Node: "R", Op: "commit", Branch: b, Variant: r.Intn(6)},
+					NetOp{Node: Pick(r, []string{"L", "L2"}), Op: Pick(r, []string{"fetch", "pull"}), Branch: b, ReqFault: &NetFault{At: r.Range(1, 3), Kind: "empty-packs"}})
 			}
 			return p
 		},
@@ -708,6 +735,21 @@ func execNet(t *testing.T, raw json.RawMessage, res *Result, focus string) {
 			if op.Force {
 				args = append(args, "--force")
 			}
+			if op.Upstream && !op.Mirror {
+				args = append(args, "--set-upstream")
+			}
+		case "pullall":
+			if op.Node == "R" {
+				res.Invalid("pullall on R")
+				return
+			}
+			args = []string{"pull", "--all", "-n", "1"}
+		case "pushall":
+			if op.Node == "R" {
+				res.Invalid("pushall on R")
+				return
+			}
+			args = []string{"push", "--all"}
 		case "pull":
 			if !validBranch {
 				res.Invalid("branch")
@@ -719,6 +761,9 @@ func execNet(t *testing.T, raw json.RawMessage, res *Result, focus string) {
 			}
 			if op.Depth > 0 {
 				args = append(args, "--depth", fmt.Sprint(op.Depth))
+			}
+			if op.Upstream {
+				args = append(args, "--set-upstream")
 			}
 		case "merge":
 			if !validBranch {
@@ -772,6 +817,15 @@ func execNet(t *testing.T, raw json.RawMessage, res *Result, focus string) {
 			sqlFired = false
 			_ = before
 		}
+		if op.ReqFault != nil {
+			if op.ReqFault.At < 1 || op.ReqFault.At > 100 {
+				res.Invalid("req_fault")
+				return
+			}
+			f := *op.ReqFault
+			f.At += net.Stats.Requests
+			net.Faults = append(append([]NetFault(nil), p.Faults...), f)
+		}
 		var faultStore *Store
 		if op.StoreFault != nil {
 			switch op.FaultOn {
@@ -788,8 +842,14 @@ func execNet(t *testing.T, raw json.RawMessage, res *Result, focus string) {
 			faultStore.Faults = []*Fault{&f}
 		}
 		firedBefore := SQLFault.Fired
+		net.OpBudget, net.OpStart, net.Storm = 4000, net.Stats.Requests, false
 		cr := n.Run(t, args...)
 		SQLFault.Arm(0)
+		net.emptyPacks = false
+		if net.Storm {
+			res.Violate(pfx+"-request-storm", "%s (`wrgl %s`): the client sent more than %d requests in one operation (it keeps asking a remote that answers with empty packfiles)", when, strings.Join(args, " "), net.OpBudget)
+			return
+		}
 		if faultStore != nil {
 			if faultStore.FaultsFired() > 0 {
 				sqlFired = true // treated like any other fault during the operation
@@ -810,11 +870,12 @@ func execNet(t *testing.T, raw json.RawMessage, res *Result, focus string) {
 		rRefsAfter, _ := R.Refs()
 		trans := n.Ref.Trans[transStart:]
 		faultDuring := false
-		for _, f := range p.Faults {
+		for _, f := range net.Faults {
 			if f.At > reqStart && f.At <= net.Stats.Requests {
 				faultDuring = true
 			}
 		}
+		net.Faults = p.Faults
 		if sqlFired {
 			faultDuring = true
 		}
@@ -842,7 +903,7 @@ func execNet(t *testing.T, raw json.RawMessage, res *Result, focus string) {
 					return
 				}
 				isTag := strings.HasPrefix(tr.Name, "tags/")
-				fetchConfForce := strings.HasPrefix(tr.Name, "remotes/") && (op.Op == "fetch" || op.Op == "pull")
+				fetchConfForce := strings.HasPrefix(tr.Name, "remotes/") && (op.Op == "fetch" || op.Op == "pull" || op.Op == "pullall")
 				tagForce := false
 				if op.Op == "fetch" && len(op.Specs) > 0 {
 					// explicit refspecs: only a '+' on the matching one forces
@@ -972,7 +1033,7 @@ func execNet(t *testing.T, raw json.RawMessage, res *Result, focus string) {
 			}
 			success := cr.Err == nil
 			switch op.Op {
-			case "fetch", "pull":
+			case "fetch", "pull", "pullall":
 				if success || op.Op == "fetch" {
 					// refs created or moved by this process
 					for _, tr := range trans {
@@ -1017,7 +1078,7 @@ func execNet(t *testing.T, raw json.RawMessage, res *Result, focus string) {
 						}
 					}
 				}
-			case "push":
+			case "push", "pushall":
 				for _, tr := range srv.RefUpdates[updStart:] {
 					if tr.New == nil {
 						continue
